@@ -317,8 +317,11 @@ def main_check(check_id: str, tier: str, replay: str | None = None) -> int:
             print("(+%d more violations not written out)" % (len(real) - len(replay_paths)))
         return 1
     if inconclusive:
-        for inc in inconclusive[:10]:
-            print("INCONCLUSIVE property=%s %s" % (check_id, json.dumps(inc, default=repr)[:1200]))
+        for inc in inconclusive[:4]:
+            tail = inc.pop("stderr_tail", "") if isinstance(inc, dict) else ""
+            print("INCONCLUSIVE property=%s %s" % (check_id, json.dumps(inc, default=repr)[:500]))
+            if tail:
+                print("   stderr tail: " + tail[-600:].replace("\n", "\n      "))
         return 2
     print("HELD property=%s on what was observed" % check_id)
     return 0
